@@ -1,6 +1,7 @@
 import Driver.Util
 import Afkak.Frame
 import Afkak.BrokerClient
+import Afkak.BrokerClientR
 import Afkak.Bootstrap
 import Afkak.Monitor.C06
 import Afkak.Monitor.C10
@@ -14,13 +15,21 @@ Requests (one per line; the answer is zero or more lines, then `.`):
                  repeats) · `make <id> <0|1>` · `cancel <id>` · `connOk` · `connFail` ·
                  `advance <rat>` · `bytes <hex>` · `lost` · `close` · `disconnect` ·
                  `meta <host> <port>` · `wfail <0|1>` → observation lines · `bc-state` → a dump
+                 A `make` may carry a re-entrant callback: `make <id> <0|1> hook close|disconnect|cancel <id>|make <id>
+                 <0|1>`.  All broker-client events are executed by the re-entrant model
+                 (`Afkak/BrokerClientR.lean`); observations then include the markers `made <serial> <id>`,
+                 `closing`, `hook <serial>`, `endhook`.  As long as no callback has been registered the flat
+                 model (`Afkak/BrokerClient.lean`, the one the theorems are about) is run alongside and a
+                 line `flat-mismatch …` is added to the answer if its observations or state differ.
 * bootstrap      `bs-new` · `bs-request <hex>` · `bs-cancel <serial>` · `bs-bytes <hex>` · `bs-lost`
 * monitors on a RECORDED trace (events and observations as the harness logged them on the real
   objects): `t-new <host> <port> <policy>` · `t-ev <event line>` (starts a step) · `t-ob <observation
   line>` (adds to the current step) · `mon-c06` / `mon-c10` → `ok` | `fail <index of the first
   violating step>`; `bt-new` · `bt-ev …` · `bt-ob …` · `mon-boot <0|1 strict>` likewise for a
   bootstrap connection.  `mon-model-c06` / `mon-model-c10` / `mon-model-boot <strict>` evaluate the
-  same monitors on the MODEL's own trace since the last `bc-new` / `bs-new`.
+  same monitors on the MODEL's own trace since the last `bc-new` / `bs-new`.  `mon-r06` / `mon-r10`
+  (`mon-model-r06` / `mon-model-r10`): the monitors for streams with re-entrant callbacks; the flat
+  monitors answer `skip` for a trace in which a callback ran.
 -/
 namespace Driver.BrokerClient
 open Driver Afkak.Frame
@@ -117,6 +126,45 @@ def parseEv : List String → Option Ev
   | ["wfail", b] => do some (.writeFail (← parseBool b))
   | _ => none
 
+open Afkak.BrokerClientR in
+def parseHook : List String → Option Hook
+  | ["close"] => some .close
+  | ["disconnect"] => some .disconnect
+  | ["cancel", i] => do some (.cancel (← i.toInt?))
+  | ["make", i, e] => do some (.make (← i.toInt?) (← parseBool e))
+  | _ => none
+
+open Afkak.BrokerClientR in
+def parseEvR : List String → Option EvR
+  | "make" :: i :: e :: "hook" :: h => do some (.make (← i.toInt?) (← parseBool e) (some (← parseHook h)))
+  | ws => (parseEv ws).map .flat
+
+open Afkak.BrokerClientR in
+def parseObR : List String → Option ObR
+  | ["made", k, i] => do some (.made (← k.toNat?) (← i.toInt?))
+  | ["closing"] => some .closing
+  | ["hook", k] => do some (.hookBegin (← k.toNat?))
+  | ["endhook"] => some .hookEnd
+  | ["raise", w] => if w.startsWith "other:" then some (.raisedOther w) else (parseOb ["raise", w]).map .ob
+  | ws => (parseOb ws).map .ob
+
+open Afkak.BrokerClientR in
+def showObR : ObR → String
+  | .ob o => showOb o
+  | .made k i => s!"made {k} {i}"
+  | .closing => "closing"
+  | .hookBegin k => s!"hook {k}"
+  | .hookEnd => "endhook"
+  | .fuelOut => "fuel-out"
+  | .raisedOther w => s!"raise {w}"
+
+open Afkak.BrokerClientR in
+/-- the flat event a re-entrant-model event stands for, if it registers no callback -/
+def flatOf : EvR → Option Ev
+  | .make i e none => some (.make i e)
+  | .make _ _ (some _) => none
+  | .flat e => some e
+
 def showReq (r : Req) : String :=
   s!"{r.serial}:{r.id}:{if r.expect then 1 else 0}{if r.sent then 1 else 0}{if r.cancelled then 1 else 0}"
 
@@ -173,8 +221,14 @@ structure DSt where
   host : Nat := 0
   port : Nat := 0
   bc : Afkak.BrokerClient.St := Afkak.BrokerClient.St.init 0 0
-  /-- the model's own trace since `bc-new`, newest first -/
+  /-- the re-entrant model (executes everything) -/
+  bcR : Afkak.BrokerClientR.StR := Afkak.BrokerClientR.StR.init 0 0
+  /-- no callback registered so far: the flat model `bc` is run alongside and compared -/
+  flatOk : Bool := true
+  /-- the model's own trace since `bc-new`, newest first (flat projection; valid while `flatOk`) -/
   bcTr : List (Afkak.BrokerClient.Ev × List Afkak.BrokerClient.Ob) := []
+  bcTrR : List (Afkak.BrokerClientR.EvR × List Afkak.BrokerClientR.ObR) := []
+  trR : List (Afkak.BrokerClientR.EvR × List Afkak.BrokerClientR.ObR) := []
   frBuf : Bytes := []
   bs : Afkak.Bootstrap.St := Afkak.Bootstrap.St.init
   bsTr : List (Afkak.Bootstrap.Ev × List Afkak.Bootstrap.Ob) := []
@@ -182,7 +236,6 @@ structure DSt where
   tPolicy : List Rat := []
   tHost : Nat := 0
   tPort : Nat := 0
-  tr : List (Afkak.BrokerClient.Ev × List Afkak.BrokerClient.Ob) := []
   btr : List (Afkak.Bootstrap.Ev × List Afkak.Bootstrap.Ob) := []
   /-- a `t-ev`/`t-ob`/`bt-…` line did not parse: the monitors answer `bad-op` -/
   tBad : Bool := false
@@ -201,6 +254,13 @@ def bootFirstBad (strict : Bool) (m : Afkak.Monitor.C06.BSt) (n : Nat) :
 def fixTr {ε ω : Type} (tr : List (ε × List ω)) : List (ε × List ω) :=
   tr.reverse.map (fun t => (t.1, t.2.reverse))
 
+/-- the flat trace a recorded trace stands for, if no callback was registered or ran -/
+def flatTrace (tr : List (Afkak.BrokerClientR.EvR × List Afkak.BrokerClientR.ObR)) :
+    Option (List (Afkak.BrokerClient.Ev × List Afkak.BrokerClient.Ob)) :=
+  tr.mapM fun t => do
+    let e ← BC.flatOf t.1
+    if Afkak.BrokerClientR.hooked t.2 then none else some (e, Afkak.BrokerClientR.plain t.2)
+
 def bsStep (st : DSt) (e : Afkak.Bootstrap.Ev) : DSt × List String :=
   let r := Afkak.Bootstrap.step st.bs e
   ({ st with bs := r.1, bsTr := (e, r.2) :: st.bsTr }, r.2.map BS.showOb)
@@ -216,35 +276,48 @@ def step (st : DSt) (line : String) : DSt × List String :=
     | none => (st, ["bad-op"])
   | ["bc-new", h, p, pol] => match h.toNat?, p.toNat?, BC.parseRats pol with
     | some h, some p, some pol =>
-      ({ st with policy := pol, host := h, port := p, bc := Afkak.BrokerClient.St.init h p, bcTr := [] }, ["ok"])
+      ({ st with policy := pol, host := h, port := p, bc := Afkak.BrokerClient.St.init h p, bcTr := [],
+                 bcR := Afkak.BrokerClientR.StR.init h p, flatOk := true, bcTrR := [] }, ["ok"])
     | _, _, _ => (st, ["bad-op"])
-  | ["bc-state"] => (st, [BC.showSt st.bc])
+  | ["bc-state"] => (st, [BC.showSt st.bcR.core])
   | ["bs-new"] => ({ st with bs := Afkak.Bootstrap.St.init, bsTr := [] }, ["ok"])
   | "bs-request" :: _ | "bs-cancel" :: _ | "bs-bytes" :: _ | ["bs-lost"] => match BS.parseEv (words line) with
     | some e => bsStep st e
     | none => (st, ["bad-op"])
   | ["t-new", h, p, pol] => match h.toNat?, p.toNat?, BC.parseRats pol with
-    | some h, some p, some pol => ({ st with tPolicy := pol, tHost := h, tPort := p, tr := [], tBad := false }, ["ok"])
+    | some h, some p, some pol => ({ st with tPolicy := pol, tHost := h, tPort := p, trR := [], tBad := false }, ["ok"])
     | _, _, _ => (st, ["bad-op"])
-  | "t-ev" :: ws => match BC.parseEv ws with
-    | some e => ({ st with tr := (e, []) :: st.tr }, [])
+  | "t-ev" :: ws => match BC.parseEvR ws with
+    | some e => ({ st with trR := (e, []) :: st.trR }, [])
     | none => ({ st with tBad := true }, ["bad-op"])
-  | "t-ob" :: ws => match BC.parseOb ws, st.tr with
-    | some o, (e, os) :: rest => ({ st with tr := (e, o :: os) :: rest }, [])
+  | "t-ob" :: ws => match BC.parseObR ws, st.trR with
+    | some o, (e, os) :: rest => ({ st with trR := (e, o :: os) :: rest }, [])
     | _, _ => ({ st with tBad := true }, ["bad-op"])
   | ["mon-c06"] =>
-    if st.tBad then (st, ["bad-op"])
-    else (st, verdict (Afkak.Monitor.C06.firstBad Afkak.Monitor.C06.MSt.init 0 (fixTr st.tr)))
+    if st.tBad then (st, ["bad-op"]) else match flatTrace (fixTr st.trR) with
+      | none => (st, ["skip"])
+      | some tr => (st, verdict (Afkak.Monitor.C06.firstBad Afkak.Monitor.C06.MSt.init 0 tr))
   | ["mon-c06r"] =>
-    if st.tBad then (st, ["bad-op"])
-    else (st, verdict (Afkak.Monitor.C06.rFirstBad Afkak.Monitor.C06.RSt.init 0 (fixTr st.tr)))
-  | ["mon-model-c06r"] => (st, verdict (Afkak.Monitor.C06.rFirstBad Afkak.Monitor.C06.RSt.init 0 st.bcTr.reverse))
+    if st.tBad then (st, ["bad-op"]) else match flatTrace (fixTr st.trR) with
+      | none => (st, ["skip"])
+      | some tr => (st, verdict (Afkak.Monitor.C06.rFirstBad Afkak.Monitor.C06.RSt.init 0 tr))
   | ["mon-c10"] =>
-    if st.tBad then (st, ["bad-op"])
-    else (st, verdict (Afkak.Monitor.C10.firstBad (BC.policyOf st.tPolicy) (Afkak.Monitor.C10.MSt.init st.tHost st.tPort) 0 (fixTr st.tr)))
-  | ["mon-model-c06"] => (st, verdict (Afkak.Monitor.C06.firstBad Afkak.Monitor.C06.MSt.init 0 st.bcTr.reverse))
+    if st.tBad then (st, ["bad-op"]) else match flatTrace (fixTr st.trR) with
+      | none => (st, ["skip"])
+      | some tr => (st, verdict (Afkak.Monitor.C10.firstBad (BC.policyOf st.tPolicy) (Afkak.Monitor.C10.MSt.init st.tHost st.tPort) 0 tr))
+  | ["mon-r06"] =>
+    if st.tBad then (st, ["bad-op"]) else (st, verdict (Afkak.Monitor.C06.r06FirstBad Afkak.Monitor.C06.RM.init 0 (fixTr st.trR)))
+  | ["mon-r10"] =>
+    if st.tBad then (st, ["bad-op"]) else (st, verdict (Afkak.Monitor.C10.r10FirstBad Afkak.Monitor.C10.RM.init 0 (fixTr st.trR)))
+  | ["mon-model-c06"] =>
+    if st.flatOk then (st, verdict (Afkak.Monitor.C06.firstBad Afkak.Monitor.C06.MSt.init 0 st.bcTr.reverse)) else (st, ["skip"])
+  | ["mon-model-c06r"] =>
+    if st.flatOk then (st, verdict (Afkak.Monitor.C06.rFirstBad Afkak.Monitor.C06.RSt.init 0 st.bcTr.reverse)) else (st, ["skip"])
   | ["mon-model-c10"] =>
-    (st, verdict (Afkak.Monitor.C10.firstBad (BC.policyOf st.policy) (Afkak.Monitor.C10.MSt.init st.host st.port) 0 st.bcTr.reverse))
+    if st.flatOk then (st, verdict (Afkak.Monitor.C10.firstBad (BC.policyOf st.policy) (Afkak.Monitor.C10.MSt.init st.host st.port) 0 st.bcTr.reverse))
+    else (st, ["skip"])
+  | ["mon-model-r06"] => (st, verdict (Afkak.Monitor.C06.r06FirstBad Afkak.Monitor.C06.RM.init 0 st.bcTrR.reverse))
+  | ["mon-model-r10"] => (st, verdict (Afkak.Monitor.C10.r10FirstBad Afkak.Monitor.C10.RM.init 0 st.bcTrR.reverse))
   | ["bt-new"] => ({ st with btr := [], tBad := false }, ["ok"])
   | "bt-ev" :: ws => match BS.parseEv ws with
     | some e => ({ st with btr := (e, []) :: st.btr }, [])
@@ -258,10 +331,19 @@ def step (st : DSt) (line : String) : DSt × List String :=
   | ["mon-model-boot", strict] => match BC.parseBool strict with
     | some b => (st, verdict (bootFirstBad b Afkak.Monitor.C06.BSt.init 0 st.bsTr.reverse))
     | none => (st, ["bad-op"])
-  | ws => match BC.parseEv ws with
+  | ws => match BC.parseEvR ws with
     | some e =>
-      let r := Afkak.BrokerClient.step ⟨BC.policyOf st.policy⟩ st.bc e
-      ({ st with bc := r.1, bcTr := (e, r.2) :: st.bcTr }, r.2.map BC.showOb)
+      let cfg : Afkak.BrokerClient.Cfg := ⟨BC.policyOf st.policy⟩
+      let r := Afkak.BrokerClientR.stepR cfg st.bcR e
+      let st1 := { st with bcR := r.1, bcTrR := (e, r.2) :: st.bcTrR }
+      -- the flat model alongside, while no callback is registered
+      match (if st.flatOk then BC.flatOf e else none) with
+      | some fe =>
+        let fr := Afkak.BrokerClient.step cfg st.bc fe
+        let same := fr.2 == Afkak.BrokerClientR.plain r.2 && fr.1 == r.1.core
+        ({ st1 with bc := fr.1, bcTr := (fe, fr.2) :: st.bcTr },
+         r.2.map BC.showObR ++ (if same then [] else ["flat-mismatch " ++ " ; ".intercalate (fr.2.map BC.showOb)]))
+      | none => ({ st1 with flatOk := false }, r.2.map BC.showObR)
     | none => (st, ["bad-op"])
 
 end Driver.BrokerClient
